@@ -1147,6 +1147,14 @@ func (ft *ftrans) findCallee(name string, args []ast.Expr, e env) *Callee {
 						hit = true
 					}
 				}
+				if hit {
+					// a constant matched by its name is emitted, so that a theorem can pin its value
+					if id, ok := unparen(args[i]).(*ast.Ident); ok && id.Name == p {
+						if cd, ok := ft.f.pkg.consts[id.Name]; ok {
+							ft.constRef(ft.f.pkg, cd)
+						}
+					}
+				}
 				if !hit {
 					ok = false
 					break
